@@ -87,7 +87,10 @@ RECURSIVE AutoLines(_, _, _)
 AutoLines(a, ls, i) ==
   IF i > Len(ls) THEN a
   ELSE LET name == NameOf(FirstWord(ls[i])) IN
-       AutoLines(<<name, a[2] \/ name = "USER", a[3] /\ AutoNext(a[1], name, a[2])>>, ls, i + 1)
+       \* a command outside the automaton's vocabulary is not this clause's business (lenient reading):
+       \* an injected line is OneLine's
+       IF name = "?" THEN AutoLines(a, ls, i + 1)
+       ELSE AutoLines(<<name, a[2] \/ name = "USER", a[3] /\ AutoNext(a[1], name, a[2])>>, ls, i + 1)
 AutoFold(a, bytes) == AutoLines(a, Lines(bytes), 1)
 Auto0 == <<"start", FALSE, TRUE>>
 
